@@ -10,6 +10,16 @@ CHECKS = {
    note="Trusts encoding/json and the harness's canonicalisation (numbers by value, one-element set == atom, nil == empty).", ref="4/C12"),
 }
 
+CHECKS["C03"] = dict(cat="exploration", engine="txn",
+   technique="differential runtime monitor: in-memory database vs. executable RFC 7047 reference model in lock-step over generated schemas and histories",
+   text="Generated schemas (all column kinds) and long generated histories are executed by the real transaction engine and by an independent reference model from the same pre-state; per-operation results and the post-state are compared after every accepted transaction, immutable columns are compared before/after. Held = no disagreement on the transactions generated; rejected-but-RFC-accepts cases are counted, not judged.",
+   note="Correctness is relative to the harness's reference model of RFC 7047 5.1/5.2; constraint enforcement is out of domain.", ref="4/C03")
+
+CHECKS["C04"] = dict(cat="exploration", engine="txn",
+   technique="invariant monitor recomputed from scratch after every commit + reference-model accept/reject + twin database (history independence) + reference-index vs rows comparison",
+   text="Reference-rich generated schemas (root/non-root, strong/weak, scalar/optional/set/map-key/map-value, self references, cycles, chains) and long histories on one database object; after every commit the stored rows are re-read and checked from scratch (no dangling strong/weak reference, no unreferenced non-root row, no weak column below minimum), accept/reject and post-state are compared with the literal rules, every 5th transaction is also answered by a fresh twin holding the same rows, and GetReferences is compared with referrers recomputed from the rows (mismatches confirmed by probe transactions on a twin). Held = no violation on the histories generated.",
+   note="Garbage collection by the literal rule (any existing strong referrer keeps a row, including itself); strong references are checked before garbage collection like ovsdb-server; rejections stricter than the rules are counted, not judged; a transaction not returning within 30 s on <= 20 rows is reported as non-terminating.", ref="4/C04")
+
 NOT_YET = "check not built yet (work in progress in this round); no claim is made"
 
 def main():
